@@ -1,6 +1,6 @@
 SPECIFICATION Spec
 CONSTANTS
-  MaxArity = 4
+  MaxArity = 7
 INVARIANT RoutesAgree
 INVARIANT PotableArityChecked
 INVARIANT Terminates
